@@ -261,6 +261,12 @@ func c08Run(c *h.Ctx) {
 			c08Retx(c, id, c.Rng(id))
 		}
 	}
+	for k := 0; k < c.Pick(2, 10); k++ {
+		id := fmt.Sprintf("dnlburst%d", k)
+		if c.Case(id) {
+			c08DnlBurst(c, id, c.Rng(id))
+		}
+	}
 	nf := c.Pick(80, 800)
 	for k := 0; k < nf; k++ {
 		id := fmt.Sprintf("fib%d", k)
@@ -280,7 +286,7 @@ func init() {
 	h.Register(&h.Prop{
 		ID: "C08", Level: "exploration",
 		Rule: "(a) forwarder histories as in C01/C02 with lifetimes of 20/40 ms, retransmissions, Data, cache hits, capacity 2-4 (constant eviction), dead-nonce lifetime 60 ms: after every step a structural walk of the PIT/CS tree (hook) must find every PIT entry in the expiry queue, PIT/CS counters == entries found == token-map / index / LRU-queue sizes, no node off the path to a live entry; " +
-			"at the end, 120 ms after the last packet and after driving the reaper until the queue stops shrinking: PIT empty, tree == exactly the paths to live cache entries, dead-nonce list empty after its lifetime; (b) the C05 FIB histories and C06 RIB histories with a structural check after every op (tree nodes == union of paths to live entries; hash table real/virtual tables == live prefixes and their m-prefixes; RIB nodes == paths to entries with routes) and after a final teardown; " +
+			"at the end, 120 ms after the last packet and after driving the reaper until the queue stops shrinking: PIT empty, tree == exactly the paths to live cache entries, dead-nonce list empty after its lifetime (also after a burst of 120-420 Interests expiring together); (b) the C05 FIB histories and C06 RIB histories with a structural check after every op (tree nodes == union of paths to live entries; hash table real/virtual tables == live prefixes and their m-prefixes; RIB nodes == paths to entries with routes) and after a final teardown; " +
 			"distinct = model decision classes reached plus (op, shape) classes of the FIB/RIB histories",
 		Assumptions: []string{"quiescence is reached by driving the reaper through a hook, not by waiting for its timer", "a missed deadline with an intact invariant would be reported as inconclusive; leak detection itself is structural and clock-independent", "hooks: fw/table/verif_hooks.go, fw/fw/verif_hooks.go"},
 		Batches:     func(t bool) int { return 16 },
